@@ -43,13 +43,24 @@ var (
 		AbbreviatedKey:     compare.AbbreviatedKeyDisableSlash,
 		FormatKey:          pebble.DefaultComparer.FormatKey,
 		FormatValue:        pebble.DefaultComparer.FormatValue,
-		Separator:          pebble.DefaultComparer.Separator,
+		Separator:          slashOrderSeparator,
 		Split:              pebble.DefaultComparer.Split,
-		Successor:          pebble.DefaultComparer.Successor,
+		Successor:          slashOrderSuccessor,
 		ImmediateSuccessor: pebble.DefaultComparer.ImmediateSuccessor,
 		Name:               "oxia-slash-spans",
 	}
 )
+
+// The default (bytewise) separator and successor are not coherent with the
+// slash-aware ordering: the key they return can sort after the upper key.
+// Returning the key itself is always a valid choice.
+func slashOrderSeparator(dst, a, _ []byte) []byte {
+	return append(dst, a...)
+}
+
+func slashOrderSuccessor(dst, a []byte) []byte {
+	return append(dst, a...)
+}
 
 type PebbleFactory struct {
 	dataDir string
